@@ -5,6 +5,7 @@ use std::sync::{Arc, Mutex, RwLock};
 pub(crate) fn published_label_snapshot(
     published_labels: &RwLock<Arc<LabelSnapshot>>,
 ) -> Arc<LabelSnapshot> {
+    vread!("published_labels", published_labels);
     published_labels.read().unwrap().clone()
 }
 
@@ -12,6 +13,7 @@ pub(crate) fn lookup_label_id(
     label_interner: &Mutex<LabelInterner>,
     name: &str,
 ) -> Option<LabelId> {
+    vlock!("label_interner", label_interner);
     label_interner.lock().unwrap().get_id(name)
 }
 
@@ -19,6 +21,7 @@ pub(crate) fn lookup_label_name(
     label_interner: &Mutex<LabelInterner>,
     id: LabelId,
 ) -> Option<String> {
+    vlock!("label_interner", label_interner);
     label_interner
         .lock()
         .unwrap()
